@@ -236,7 +236,8 @@ MANIFEST = {
             "the three range paths per phase z3 proves e=T dp-p, w=T dp, de=T ddp, cs^2=dp/de, "
             "that dp and ddp are the T-derivatives of the returned p (term differentiation), "
             "continuity of p, dp, ddp, cs^2 at both range ends, p=-Veff inside, and the alpha "
-            "formula. All temperatures and all tables with P',P''>0 at the ends.",
+            "formula. All temperatures and all tables with P',P''>0 at the ends."
+            " Every node of the table the tracer hands to the spline (the starting node included) holds the potential at the tabulated field values.",
     "note": "pow abstracted by a UF with exponent-shift axioms; spline derivative contract "
             "trusted; real arithmetic; literal 1/3.0 lifted to 1/3.",
 }
